@@ -176,6 +176,15 @@ func RegisterVrt(module string) {
 	reg("Symbolic", func(fr *frame, a []value) value { return true })
 	reg("NondetMapOrder", func(fr *frame, a []value) value {
 		fr.i.ex.nondetOrder = a[0].(bool)
+		fr.i.ex.nondetAt = -1
+		fr.i.ex.nondetSeen = 0
+		return nil
+	})
+	// NondetMapOrderAt(k): only the k-th map iteration (with >= 2 entries) from now on is permuted
+	reg("NondetMapOrderAt", func(fr *frame, a []value) value {
+		fr.i.ex.nondetOrder = true
+		fr.i.ex.nondetAt = int(asInt64(a[0]))
+		fr.i.ex.nondetSeen = 0
 		return nil
 	})
 	reg("Freeze", func(fr *frame, a []value) value {
@@ -195,6 +204,7 @@ func RegisterVrt(module string) {
 		fr.i.ex.frozen = nil
 		return nil
 	})
+	reg("Repeat", func(fr *frame, a []value) value { return 1 })
 	reg("Steps", func(fr *frame, a []value) value { return int(fr.i.ex.steps) })
 }
 
